@@ -2929,3 +2929,126 @@ func runC03MergedContext(c *Ctx) {
 		c.Undecided("merged-context builder", "-", "not found")
 	}
 }
+
+// ---------- fourth batch: C17.R14, C09.R17, C12.R17 ----------
+func runC17NoUseAfterHandOver(c *Ctx) {
+	p := c.P
+	c.Rule("R14", "OWN", "a request that was handed to the next consumer is not touched again: in the batch processor's send path nothing reads the exported request after the export call returned (the consumer owns it and may keep or change it – an asynchronous downstream makes a later read a data race); what the telemetry needs is measured before the hand-over", 1)
+	pk := p.Pkg("processor/batchprocessor")
+	if pk == nil {
+		c.Anchor("processor/batchprocessor")
+		return
+	}
+	n := 0
+	for _, fn := range p.AllSrcFuncs(pk) {
+		if fn.Parent() != nil {
+			continue
+		}
+		for _, ci := range calls(fn, func(ci ssa.CallInstruction) bool {
+			return ci.Common().IsInvoke() && ci.Common().Method.Name() == "export" && len(ci.Common().Args) == 2
+		}) {
+			n++
+			req := ci.Common().Args[1]
+			var bad ssa.Instruction
+			if req.Referrers() != nil {
+				for _, r := range *req.Referrers() {
+					if r == ci.(ssa.Instruction) {
+						continue
+					}
+					if _, isDbg := r.(*ssa.DebugRef); isDbg {
+						continue
+					}
+					if canReach(ci.(ssa.Instruction), r, nil) {
+						bad = r
+					}
+				}
+			}
+			c.Check(bad == nil, "request exported in "+fnName(fn)+" is not used afterwards", p.Pos(ci.Pos()), "no use of the request behind the export call", "the request is read again after it was handed on ("+posOf(p, bad)+"): at detailed telemetry level its size is measured behind the export – with a second batch processor or an exporter queue downstream `go test -race` reports the race, and the measured size can be that of a payload the consumer has already changed")
+		}
+	}
+	if n == 0 {
+		c.Undecided("export call of the batch processor", "-", "not found")
+	}
+}
+
+func runC09CycleTime(c *Ctx) {
+	p := c.P
+	c.Rule("R17", "TERM", "a cyclic configuration is rejected in time polynomial in its size: the graph builder does not enumerate all elementary cycles (their number is exponential in a densely connected configuration) to report one – no call of topo.DirectedCyclesIn", 0)
+	pk := p.Pkg("service/internal/graph")
+	if pk == nil {
+		c.Anchor("service/internal/graph")
+		return
+	}
+	n := 0
+	for _, fn := range p.AllSrcFuncs(pk) {
+		for _, ci := range callsNamed(fn, func(f *types.Func) bool {
+			return f.Name() == "DirectedCyclesIn" && f.Pkg() != nil && strings.HasSuffix(f.Pkg().Path(), "/graph/topo")
+		}) {
+			n++
+			c.Bad("cycle report in "+fnName(fn)+" does not enumerate every cycle", p.Pos(ci.Pos()), "all elementary cycles are enumerated (Johnson's algorithm) to print the first: with n pipelines fully connected by n connectors the rejection takes 8 s for n=7 and ~35 times longer for every further pipeline – the collector appears to hang on a wrong configuration instead of reporting it")
+		}
+	}
+	if n == 0 {
+		c.OK("the graph builder does not enumerate all cycles", "-", "no DirectedCyclesIn")
+	}
+}
+
+func runC12NoInterfaceEq(c *Ctx) {
+	p := c.P
+	c.Rule("R17", "TYP", "merging never compares two arbitrary configuration values with ==: in confmap's merge code no equality operator has operands of interface type (`any`) – the dynamic value of a configuration entry can be a map or a list, and == on those panics at run time (`comparing uncomparable type map[string]interface {}`)", 0)
+	pk := p.Pkg("confmap")
+	if pk == nil {
+		c.Anchor("confmap")
+		return
+	}
+	n := 0
+	for _, fn := range p.AllSrcFuncs(pk) {
+		pos := p.Pos(fn.Pos())
+		if !strings.Contains(pos, "confmap/merge.go") {
+			continue
+		}
+		allInstrs(fn, func(in ssa.Instruction) {
+			bo, ok := in.(*ssa.BinOp)
+			if !ok || (bo.Op != token.EQL && bo.Op != token.NEQ) {
+				return
+			}
+			_, xi := bo.X.Type().Underlying().(*types.Interface)
+			_, yi := bo.Y.Type().Underlying().(*types.Interface)
+			if !(xi && yi) || isNilConst(bo.X) || isNilConst(bo.Y) {
+				return
+			}
+			// error comparisons are fine
+			if isErrorType(bo.X.Type()) {
+				return
+			}
+			n++
+			c.Bad("comparison in "+fnName(fn)+" is a deep comparison", p.Pos(bo.Pos()), "two `any` values are compared with ==: with the merge-append gate on, two sources that both define a list of maps under the same key panic with `runtime error: comparing uncomparable type map[string]interface {}`")
+		})
+	}
+	for _, fn := range p.AllSrcFuncs(pk) {
+		if !strings.Contains(p.Pos(fn.Pos()), "confmap/merge.go") {
+			continue
+		}
+		for _, ci := range callsNamed(fn, func(f *types.Func) bool { return f.FullName() == "(reflect.Value).Equal" }) {
+			// Value.Equal panics for values that are not comparable, unless Comparable() was asked first
+			guarded := false
+			for _, cond := range controllingCondsDeep(ci.Block()) {
+				for v := range backSlice(cond) {
+					if cc, ok := v.(*ssa.Call); ok {
+						if f := calleeOf(cc); f != nil && f.FullName() == "(reflect.Value).Comparable" {
+							guarded = true
+						}
+					}
+				}
+			}
+			if guarded {
+				continue
+			}
+			n++
+			c.Bad("comparison in "+fnName(fn)+" is a deep comparison", p.Pos(ci.Pos()), "reflect.Value.Equal is used for the membership test: it panics for values that are not comparable – with the merge-append gate on, two sources that both define a list of maps under the same key panic (`reflect.Value.Equal: values of type map[string]interface {} are not comparable`)")
+		}
+	}
+	if n == 0 {
+		c.OK("no == / Value.Equal on arbitrary values in the merge code", "-", "membership tests use a deep comparison")
+	}
+}
